@@ -14,17 +14,28 @@ Record case := mk_case {
   c_tag : bytes;
   c_ty : ty;
   c_val : value;
+  c_rest : list value;          (* routes 1, 2: further values of the same type, held behind
+                                   [c_val] in the SAME port buffer / engine queue *)
   o_json : option json;
   o_dec : option value;
+  o_rest : list (option value); (* what came back for [c_rest], in order *)
   o_tag : bytes }.
 
 Definition ov_eqb := opt_eqb value_eqb.
 Definition oj_eqb := opt_eqb json_eqb.
 
+(** all elements of the buffer / queue go through ONE EncodeSlice / DecodeSlice *)
+Definition model_all (c : case) : option (list (bytes * value)) :=
+  match slice_roundtrip [(c_tag c, c_ty c)]
+          (map (fun v => (c_tag c, c_ty c, v)) (c_val c :: c_rest c)) with
+  | inr l => Some l
+  | inl _ => None
+  end.
+
 Definition model_dec (c : case) : option (bytes * value) :=
   if (c_route c =? 1) || (c_route c =? 2) then
-    match slice_roundtrip [(c_tag c, c_ty c)] [(c_tag c, c_ty c, c_val c)] with
-    | inr [(tag, v)] => Some (tag, v)
+    match model_all c with
+    | Some ((tag, v) :: _) => Some (tag, v)
     | _ => None
     end
   else if c_route c =? 3 then
@@ -38,9 +49,19 @@ Definition check_case (c : case) : bool :=
   | Some (tag, v), Some w => bytes_eqb tag (o_tag c) && value_eqb v w
   | None, None => true
   | _, _ => false
-  end.
+  end &&
+  (if (c_route c =? 1) || (c_route c =? 2) then
+     match model_all c with
+     | Some (_ :: l) => list_eqb ov_eqb (map (fun tv => Some (snd tv)) l) (o_rest c)
+                        && forallb (fun tv => bytes_eqb (fst tv) (c_tag c)) l
+     | _ => forallb (fun o => match o with None => true | Some _ => false end) (o_rest c)
+     end
+   else is_nil (c_rest c) && is_nil (o_rest c)).
 
-(** the property on the observed behaviour: the value comes back equal, as the same
-    concrete type *)
+(** the property on the observed behaviour: every value comes back equal, as the same
+    concrete type, in the same order *)
 Definition holds_on (c : case) : bool :=
-  if c_lib c then ov_eqb (o_dec c) (Some (c_val c)) && bytes_eqb (o_tag c) (c_tag c) else true.
+  if c_lib c
+  then ov_eqb (o_dec c) (Some (c_val c)) && bytes_eqb (o_tag c) (c_tag c)
+       && list_eqb ov_eqb (o_rest c) (map Some (c_rest c))
+  else true.
